@@ -88,7 +88,7 @@ add(P + "parse_format_width|unwrap|unwrap on Result::<char, Box<dyn std::error::
 add(P + "parse_format_width|assert:overflow|overflow:Add", "digits counts characters of the format string: bounded by its length")
 add(P + "parse_format_width|index|<str as Index<Range<usize>>>::index", "start[0..digits]: `digits` ASCII digits (one byte each) were consumed from `start`")
 add(M + "printf::format_directive|unwrap|unwrap on Result::<&std::path::Path, std::path::StripPrefixError>::unwrap", "%P: the prefix is an ancestor of the same path", {"type": "operand_from", "callee": "strip_prefix"})
-add(M + "printf::get_starting_point|unwrap|unwrap on Option::<&std::path::Path>::unwrap", "ancestors().nth(depth): a path yielded at depth d below its root has at least d ancestors (each level appended one component)")
+add(M + "printf::get_starting_point::{closure#0}|unwrap|unwrap on Option::<&std::path::Path>::unwrap", "ancestors().nth(depth): a path yielded at depth d below its root has at least d ancestors (each level appended one component)")
 # ---- xargs ---------------------------------------------------------------------------------------------------------------------
 BR = "<findutils::xargs::ByteDelimitedArgumentReader<R> as findutils::xargs::ArgumentReader>::next"
 add(BR + "|assert:overflow|overflow:Sub", "buf.len() - 1 under bytes_read > 0: read_until appended that many bytes to the fresh buffer", {"type": "dominated_by_gt_zero"})
